@@ -75,7 +75,13 @@ fn generic_step<E: Elem + Clone>(out: &mut Out, w: &mut World<E>, rng: &mut Rng)
         16 => {
             let axis = *rng.pick(&["rows", "cols"]);
             let fam = *rng.pick(&["views", "viewsmut"]);
-            w.views(out, r, fam, axis, *rng.pick(&["-", "B", "FB"]), *rng.pick(&["-", "B"]));
+            if rng.coin() {
+                w.views(out, r, fam, axis, *rng.pick(&["-", "B", "FB"]), *rng.pick(&["-", "B"]));
+            } else {
+                // one vector consumed through iterator adaptors and jumps (also of exactly the remaining length and far beyond)
+                let extent = if axis == "rows" { nr } else { nc };
+                w.adapt(out, r, *rng.pick(&["views", "viewsmut", "nth", "nthmut"]), axis, rng.below(extent + 1));
+            }
         }
         _ => {
             let kind = *rng.pick(&["row", "col", "row_mut", "col_mut"]);
